@@ -9,6 +9,7 @@ is unchanged by each step, histories of any length follow by induction.
 from __future__ import annotations
 
 import itertools as it
+import os
 
 from vlib.explore import Violation
 from vlib.server import run_coro
@@ -54,8 +55,10 @@ def obligations(tier):
             prod = it.product(KINDS, KINDS, ('absent', 'int', 'str'), KINDS)
         for kj, ki, km, kp in prod:
             obs.append({'h': 'step', 'disp': disp, 'k': [kj, ki, km, kp]})
-        for first in ('echo', 'ctxm', 'vm', 'js', 'vjs', 'pos', 'nosuch', 'whoami', 'ping', 'boomctx', 'push', 'bad'):
+        for first in ('echo', 'ctxm', 'vm', 'js', 'vjs', 'pos', 'nosuch', 'whoami', 'ping', 'boomctx', 'push', 'bad', 'nosuch2', 'nosuch3'):
             obs.append({'h': 'probe', 'disp': disp, 'first': first, '_budget': 90.0})
+        for names, batch in it.product((['u1'], ['u1', 'u2', 'u3'], ['x.y', 'x.z'], ['', ' ', '%s']), (False, True)):
+            obs.append({'h': 'names', 'disp': disp, 'names': names, 'batch': batch})
         for passing, passing2 in it.product(('pos', 'named'), repeat=2):
             obs.append({'h': 'disturb', 'disp': disp, 'passing': passing, 'passing2': passing2})
         for n in (0, 1, 2):
@@ -279,7 +282,10 @@ def _deep(obj, depth=0, seen=None):
 def _fingerprint(d):
     import pjrpc
     caches, globs, insts = _caches_and_globals()
+    import logging
     fp = {
+        # the process-wide logger registry keeps every logger ever created: names under the library's namespace must not multiply
+        'loggers': sorted(k for k in list(logging.Logger.manager.loggerDict) if k == 'pjrpc' or k.startswith('pjrpc.')),
         'module_level_instances': {k: _deep(v) for k, v in insts.items()},
         'deep': _deep(d),
         'registry': [(k, _Id(v)) for k, v in d.registry.items()],
@@ -404,7 +410,7 @@ def h_probe(ob):
     def run(env):
         def make_doc():
             m = ob['first']
-            params = {'a': 1} if m in ('js', 'vjs') else ([env.int('first.x')] if m not in ('nosuch', 'whoami', 'ping', 'bad') else [])
+            params = {'a': 1} if m in ('js', 'vjs') else ([env.int('first.x')] if m not in ('nosuch', 'nosuch2', 'nosuch3', 'whoami', 'ping', 'bad') else [])
             return {'jsonrpc': '2.0', 'id': env.int('first.id'), 'method': m, 'params': params}
         return _step(env, ob, make_doc, probe=True)
 
@@ -492,5 +498,39 @@ def h_disturb(ob):
         if not same_json(_strip(wire.decode(a[0])), _strip(wire.decode(b[0]))) or a[1] != b[1]:
             raise Violation('probe-answer-depends-on-history', (doc, pdoc, a, b))
         return ['disturbed-ok']
+
+    return run
+
+
+_NONCE = it.count()
+
+
+def h_names(ob):
+    """Failing requests whose METHOD NAMES differ from request to request (names the dispatcher never saw before): nothing
+    keyed by a client-supplied name may be left behind (the fingerprint includes the process-wide logger registry)."""
+    def run(env):
+        wire = Wire(env)
+        with env.untraced():
+            d = _build_dispatcher(env, wire, ob['disp'])
+            for m, p in (('echo', [1]), ('nosuch', [])):
+                _dispatch(d, ob['disp'], wire.encode({'jsonrpc': '2.0', 'id': 1, 'method': m, 'params': p}), Ctx())
+            before = _fingerprint(d)
+        nonce = f'{os.getpid()}x{next(_NONCE)}'        # the logger registry is process-wide: never-seen names in EVERY run (also the replay)
+        for i, name in enumerate(ob['names']):
+            name = name + nonce
+            doc = {'jsonrpc': '2.0', 'id': env.int(f'id{i}'), 'method': name, 'params': [i]}
+            if ob['batch']:
+                doc = [doc, {'jsonrpc': '2.0', 'method': name + 'n', 'params': [i]}]
+            try:
+                _dispatch(d, ob['disp'], wire.encode(doc), Ctx())
+            except Exception as e:
+                raise Violation('raised:' + type(e).__name__, doc)
+        with env.untraced():
+            after = _fingerprint(d)
+        env.reached()
+        changed = _diff(before, after)
+        if changed:
+            raise Violation('library-state-changed:' + ','.join(changed), ob['names'])
+        return ['names-ok']
 
     return run
